@@ -25,6 +25,7 @@ pub mod orch;
 pub mod plan;
 pub mod prng;
 pub mod procsim;
+pub mod realfs;
 pub mod replay;
 pub mod sched;
 pub mod seams;
